@@ -285,6 +285,35 @@ pub fn families(ctx: &Ctx) -> Vec<Family> {
         }
     }));
 
+    // well-formed multi-file programs (rich symbol tables), whole and as typing states
+    fams.push(Family::new("sem", tier.pick(60, 1000), |_c, rng, emit| {
+        for _ in 0..50 {
+            let p = crate::gen::sem::program(rng, crate::gen::sem::Opts::WithProbes);
+            let mut files = p.files.clone();
+            match rng.below(5) {
+                0 => {
+                    let k = rng.below(files.len());
+                    files[k].1 = mutate::prefix_at(&files[k].1, rng);
+                }
+                1 => {
+                    let k = rng.below(files.len());
+                    let alpha = tok::alphabet();
+                    let toks: Vec<String> = crate::fw::shrink_tokens(&files[k].1);
+                    files[k].1 = mutate::mutate_tokens(&toks, rng, 1, &alpha).concat();
+                }
+                2 => {
+                    let k = rng.below(files.len());
+                    files[k].1 = mutate::insert_non_ascii(&mutate::char_noise(&files[k].1, rng, 2), rng, 2);
+                }
+                _ => {}
+            }
+            let root = files[0].0.clone();
+            if !emit(ws_case(&files, &root)) {
+                return;
+            }
+        }
+    }));
+
     fams.push(Family::new("gram", tier.pick(48, 800), |_c, rng, emit| {
         for _ in 0..50 {
             let budget = [30, 80, 160][rng.below(3)];
